@@ -186,7 +186,6 @@ inline struct trie_node *pfx_table_get_root(const struct pfx_table *pfx_table, c
 int pfx_table_del_elem(struct node_data *data, const unsigned int index)
 {
 	struct data_elem *tmp;
-	struct data_elem deleted_elem = data->ary[index];
 
 	// if index is not the last elem in the list, move all other elems backwards in the array
 	if (index != data->len - 1) {
@@ -201,14 +200,11 @@ int pfx_table_del_elem(struct node_data *data, const unsigned int index)
 		return PFX_SUCCESS;
 	}
 
+	// shrinking the array is optional: if it fails the (larger) block is kept.
+	// Failing here would leave pfx_table_src_remove with a partially removed source.
 	tmp = lrtr_realloc(data->ary, sizeof(struct data_elem) * data->len);
-	if (!tmp) {
-		data->ary[data->len] = deleted_elem;
-		data->len++;
-		return PFX_ERROR;
-	}
-
-	data->ary = tmp;
+	if (tmp)
+		data->ary = tmp;
 
 	return PFX_SUCCESS;
 }
